@@ -26,29 +26,28 @@ func Glob(pattern, input string, opts ...Option) bool {
 	for _, o := range opts {
 		o(&g)
 	}
-	i := 0
-	j := 0
-	asterisk := false
-	for i < len(pattern) {
-		if pattern[i] == '*' {
-			asterisk = true
+	// i and j index pattern and input. star is the position of the most recent
+	// '*' in the pattern and mark the input position it is currently assumed to
+	// extend to; on a mismatch the '*' absorbs one more input byte and matching
+	// resumes after it.
+	i, j := 0, 0
+	star, mark := -1, 0
+	for j < len(input) {
+		if i < len(pattern) && pattern[i] == '*' {
+			star, mark = i, j
 			i++
-		} else {
-			match := pattern[i] == input[j]
-			if !asterisk && !match {
-				return false
-			}
-			if match {
-				i++
-			}
-			if asterisk && match {
-				asterisk = false
-			}
+		} else if i < len(pattern) && pattern[i] == input[j] {
+			i++
 			j++
-		}
-		if j >= len(input) {
-			break
+		} else if star >= 0 {
+			mark++
+			i, j = star+1, mark
+		} else {
+			return false
 		}
 	}
-	return i == len(pattern) && (asterisk || j == len(input))
+	for i < len(pattern) && pattern[i] == '*' {
+		i++
+	}
+	return i == len(pattern)
 }
